@@ -208,6 +208,36 @@ theorem C11_init_checked (p : ADMMParams K X Z) (x0 : Option X) (hpg : p.proxg.l
     by_cases hc : p.C.length = p.g.length <;> simp [hc, h]
   · unfold admmInitChecked; simp [h1, h2]
 
+/-- the empty constraint list `N = 0` (`g_list = C_list = rho_list = []`): the linear-system sub-problem solvers reject it
+    (`TypeError` from `internal_init`), `GenericSubproblemSolver` accepts it when `x0` is given (`IndexError` otherwise); the
+    accepted state has empty lists, `step()` is `x ← solver.solve(x)` (the documented `argmin f`) and keeps the lists empty,
+    both residual accessors are the norm of an empty sum.  For `N ≥ 1` the full constructor agrees with `admmInitChecked`. -/
+theorem C11_admm_empty [HasSqrt K] (p : ADMMParams K X Z) (hg : p.g = []) (hC : p.C = []) (hr : p.rho = [])
+    (hp : p.proxg = []) (x0 : X) (q : ADMMParams K X Z) (hq : q.C ≠ []) (r : Bool) (y0 : Option X) :
+    admmInitFull true p (some x0) = .error .type ∧ admmInitFull true p none = .error .type ∧
+    admmInitFull false p none = .error .index ∧
+    admmInitFull false p (some x0) = .ok { x := x0, z := [], zOld := [], u := [] } ∧
+    admmImplStep p { x := x0, z := [], zOld := [], u := [] } = { x := p.solveX [] [] x0, z := [], zOld := [], u := [] } ∧
+    admmNormPrimalImpl p { x := x0, z := [], zOld := [], u := [] } none = HasSqrt.sqrt 0 ∧
+    admmNormDualImpl p { x := x0, z := [], zOld := [], u := [] } = p.normX 0 ∧
+    admmInitFull r q y0 = admmInitChecked q y0 := by
+  refine ⟨?_, ?_, ?_, ?_, ?_, ?_, ?_, ?_⟩
+  · simp [admmInitFull, hg, hC, hr]
+  · simp [admmInitFull, hg, hC, hr]
+  · simp [admmInitFull, hg, hC, hr]
+  · simp [admmInitFull, admmInit, hg, hC, hr]
+  · simp [admmImplStep, admmZipLen, hC, hr, hp]
+  · simp [admmNormPrimalImpl, hC, hr]
+  · simp [admmNormDualImpl, hr]
+  · have hl : q.C.length ≠ 0 := fun h => hq (List.length_eq_zero_iff.1 h)
+    unfold admmInitFull admmInitChecked
+    by_cases h1 : q.C.length = q.g.length <;> by_cases h2 : q.rho.length = q.g.length
+    · have hgne : q.g ≠ [] := fun h => hl (by rw [h1, h]; rfl)
+      simp [h1, h2, hgne]
+    · simp [h1, h2]
+    · simp [h1]
+    · simp [h1]
+
 /-- step-size state of the Barzilai–Borwein policies (`BBStepSize`, `AdaptiveBBStepSize`): after every call of `step()`
     of PGM and of AcceleratedPGM the policy's memory `(xprev, gradprev)` is the iterate `x` of the pre-state and its
     gradient — whether or not the BB value was accepted — and `L` is the documented quotient `ΔgᵀΔg / ΔxᵀΔg` of the
@@ -281,6 +311,12 @@ def exP : ADMMParams ℚ ℚ ℚ :=
 def exS : ADMMState ℚ ℚ := { x := 1, z := [1, 2], zOld := [0, 0], u := [1 / 2, 0] }
 
 example : ADMMWf 2 exP exS := by simp [ADMMWf, exP, exS]
+-- the empty constraint list: accepted by the generic solver with a start, one step is the solver's x-update
+example :
+    let p0 : ADMMParams ℚ ℚ ℚ := { exP with g := [], proxg := [], C := [], Cadj := [], rho := [], solveX := fun _ _ x => x / 2 }
+    admmInitFull false p0 (some 4) = .ok { x := 4, z := [], zOld := [], u := [] } ∧
+    (admmImplStep p0 { x := 4, z := [], zOld := [], u := [] }).x = 2 ∧ admmInitFull true p0 (some 4) = .error .type := by
+  refine ⟨by simp [admmInitFull, admmInit], by simp [admmImplStep, admmZipLen, exP]; norm_num, by simp [admmInitFull]⟩
 -- BB policy on the concave `f(x) = −x²/2` over ℚ (`Δx·Δg < 0`): the value is rejected (`L` kept) and the memory is still refreshed
 example :
     let pol : Policy (BBMem ℚ) ℚ ℚ := bbPolicy (fun x => -x) (fun a b => a * b) (fun l => decide (0 < l)) 0
